@@ -7,13 +7,13 @@ open Finset Gen.Proj
 
 /-! ### lists and boxes -/
 
-theorem InBox.length {sh idx : List ℕ} (h : InBox sh idx) : idx.length = sh.length :=
+theorem _root_.DadiVerif.InBox.length {sh idx : List ℕ} (h : InBox sh idx) : idx.length = sh.length :=
   List.Forall₂.length_eq h
 
-theorem InBox.set {sh idx : List ℕ} (h : InBox sh idx) : ∀ (k a i : ℕ), i < a → InBox (sh.set k a) (idx.set k i) := by
+theorem _root_.DadiVerif.InBox.set {sh idx : List ℕ} (h : InBox sh idx) : ∀ (k a i : ℕ), i < a → InBox (sh.set k a) (idx.set k i) := by
   unfold InBox at h ⊢
   induction h with
-  | nil => intro k a i _; simpa using List.Forall₂.nil
+  | nil => intro k a i _; simp
   | @cons i0 s0 is ss h0 _ ih =>
     intro k a i hi
     cases k with
@@ -24,12 +24,11 @@ theorem set_getD_self {sh : List ℕ} {k a : ℕ} (hk : k < sh.length) (h : sh.g
   apply List.ext_getElem?
   intro i
   rw [List.getElem?_set]
-  split_ifs with h1 h2
+  split_ifs with h1
   · subst h1
     rw [List.getD_eq_getElem?_getD, List.getElem?_eq_getElem hk] at h
     rw [List.getElem?_eq_getElem hk]
     simpa using h.symm
-  · subst h1; omega
   · rfl
 
 theorem getD_set_self {sh : List ℕ} {k a : ℕ} (hk : k < sh.length) : (sh.set k a).getD k 0 = a := by
@@ -41,7 +40,7 @@ theorem getD_set_ne {sh : List ℕ} {k j a : ℕ} (h : k ≠ j) : (sh.set k a).g
 theorem getD_one_eq_zero {sh : List ℕ} {k : ℕ} (hk : k < sh.length) : sh.getD k 1 = sh.getD k 0 := by
   simp [List.getD_eq_getElem?_getD, hk]
 
-theorem InBox.getD_le {sh idx : List ℕ} {k m : ℕ} (h : InBox (sh.set k (m + 1)) idx) (hk : k < sh.length) :
+theorem _root_.DadiVerif.InBox.getD_le {sh idx : List ℕ} {k m : ℕ} (h : InBox (sh.set k (m + 1)) idx) (hk : k < sh.length) :
     idx.getD k 0 ≤ m := by
   have h1 := h.getD_lt k (by simpa using hk)
   rw [getD_set_self hk] at h1
@@ -52,7 +51,7 @@ theorem set_getD_idx {idx : List ℕ} {k : ℕ} (hk : k < idx.length) : idx.set 
   set_getD_self hk rfl
 
 /-- moving along axis `k` inside the source box -/
-theorem InBox.set_back {sh idx : List ℕ} {k a i : ℕ} (h : InBox (sh.set k a) idx) (hk : k < sh.length)
+theorem _root_.DadiVerif.InBox.set_back {sh idx : List ℕ} {k a i : ℕ} (h : InBox (sh.set k a) idx) (hk : k < sh.length)
     (hi : i < sh.getD k 0) : InBox sh (idx.set k i) := by
   have := h.set k (sh.getD k 0) i hi
   rwa [List.set_set, set_getD_self hk rfl] at this
@@ -182,8 +181,7 @@ theorem getElem?_foldl_set (g : ℕ → ℕ) : ∀ (ks sh : List ℕ) (j : ℕ),
     simp only [List.foldl_cons]
     rw [ih, List.length_set, List.getElem?_set]
     by_cases h1 : j ∈ ks <;> by_cases h2 : j < sh.length <;> by_cases h3 : k = j <;> simp [h1, h2, h3]
-    all_goals first | omega | (intro h; omega) | skip
-    all_goals simp_all
+    all_goals omega
 
 theorem foldl_set_range (g : ℕ → ℕ) (sh : List ℕ) :
     (List.range sh.length).foldl (fun sh k => sh.set k (g k)) sh = (List.range sh.length).map g := by
@@ -223,7 +221,6 @@ theorem projectAxes_rel {O : Spec} {f : List ℕ → ℚ} {G : List ℕ → Prop
     by_cases hj : j < ms.length
     · simp [box1, hj, List.getD_eq_getElem?_getD]
     · simp [box1, hj]
-      omega
   rw [hs] at h
   unfold Spec.projectAxes
   refine h.congr ?_ ?_
